@@ -1,6 +1,6 @@
 """C05 configure-time monitors: which ordering mechanisms of the ninja backend were exercised.
 
-Installed in the forked meson child (runner.meson(monitors=[install])).  Wraps four methods of
+Installed in the forked meson child (runner.meson(monitors=[install])).  Wraps five methods of
 NinjaBackend from outside; the wrappers only count (never raise, never change arguments) and flush one
 record {'c05': {...counters...}} when meson returns.
 """
@@ -84,6 +84,13 @@ def install(rec: T.Callable[[dict], None]) -> None:
             bump('link:with_link_whole')
         if target.link_depends:
             bump('link:with_link_depends')
+            for ld in target.link_depends:
+                if isinstance(ld, build.BuildTarget):
+                    bump('link:link_depends_on_build_target')
+                elif isinstance(ld, (build.CustomTarget, build.CustomTargetIndex)):
+                    bump('link:link_depends_on_custom_target')
+                else:
+                    bump('link:link_depends_on_file')
         if any(isinstance(t, (build.CustomTarget, build.CustomTargetIndex)) for t in target.link_targets):
             bump('link:custom_target_library')
         if target.objects:
@@ -101,7 +108,19 @@ def install(rec: T.Callable[[dict], None]) -> None:
         if len(g.outputs) > 1:
             bump('genlist:multi_output')
 
+    def obs_pch(self, target, header_deps=None):  # type: ignore[no-untyped-def]
+        bump('pch')
+        for lang in ('c', 'cpp'):
+            if target.pch.get(lang):
+                bump('pch:' + lang)
+        if header_deps:
+            bump('pch:with_header_deps')
+            bump('pch:header_deps_total', len(header_deps))
+            if any(not str(getattr(h, 'fname', h)).endswith(('.h', '.hpp')) for h in header_deps):
+                bump('pch:with_non_header_suffix_deps')
+
     wrap('generate_single_compile', obs_compile)
+    wrap('generate_pch', obs_pch)
     wrap('generate_custom_target', obs_custom)
     wrap('generate_link', obs_link)
     wrap('generate_genlist_for_target', obs_genlist)
